@@ -542,7 +542,7 @@ func (fr *Frame) convert(st *State, x Value, from, to types.Type) Value {
 			return Scalar{wrapInt(xs.T, tt)}
 		}
 		if tt.Info()&types.IsFloat != 0 && fb.Info()&types.IsInteger != 0 {
-			return Scalar{UF("i2f", SInt, xs.T)}
+			return Scalar{floatOfInt(st, xs.T)}
 		}
 		if tt.Info()&types.IsInteger != 0 && fb.Info()&types.IsFloat != 0 {
 			// the truncated value (spec: trunc(x)), wrapped into the target type like an integer
@@ -1149,6 +1149,22 @@ func (fr *Frame) step(st *State, in ssa.Instruction) {
 			gname = cv.Name()
 		}
 		st.events = append(st.events, "go "+gname)
+		if fr.dry == nil && fr.v.curCtr != nil {
+			// the body of a goroutine is not part of what is proved about the function that starts it:
+			// every go statement has to be declared by the contract (`spawns name`), like a write
+			// has to be covered by `modifies`
+			declared := false
+			for _, n := range fr.v.curCtr.Spawns {
+				if n == gname || strings.HasSuffix(gname, "."+n) || strings.HasSuffix(gname, n) {
+					declared = true
+				}
+			}
+			goal := True
+			if !declared {
+				goal = False
+			}
+			fr.v.emit(fr, st, "frame", "frame/goroutines", goal, "go "+gname+": every goroutine the function starts is declared by its contract (spawns)")
+		}
 		fr.v.note("goroutine body not executed in spawner: " + fr.fn.String())
 	case *ssa.Send:
 		ch, ok := fr.get(st, x.Chan).(Chan)
